@@ -286,7 +286,25 @@ impl Scenario for Adversary {
         for k in 0..ncalls {
             let op = match cx.draw(8) {
                 0 | 1 => Op::Configure,
-                2 | 3 => Op::SendPages(gens::pages(cx, t, 3)),
+                2 | 3 => {
+                    if cx.chance(1, 4) {
+                        // pages of arbitrary, mixed sizes (the API takes any pages)
+                        cx.probe("page_list_of_mixed_sizes");
+                        let n = 1 + cx.draw(3);
+                        let mut v = Vec::new();
+                        for _ in 0..n {
+                            let (w, h) = match cx.draw(3) {
+                                0 => t.dimensions(),
+                                1 => gens::any_sign_type(cx).dimensions(),
+                                _ => (*cx.pick(&[12u32, 1, 28, 44, 60, 0]), *cx.pick(&[8u32, 7, 16, 1, 9])),
+                            };
+                            v.push(gens::page(cx, w, h));
+                        }
+                        Op::SendPages(v)
+                    } else {
+                        Op::SendPages(gens::pages(cx, t, 3))
+                    }
+                }
                 4 => Op::ConfigureIfNeeded,
                 5 => Op::Show,
                 6 => Op::LoadNext,
